@@ -1892,6 +1892,12 @@ fn verify_nsec(
             if response_code == ResponseCode::NoError
                 && have_answer
                 && !query_name_is_ent
+                && !closer_encloser_exists(
+                    &query.name,
+                    covering_nsec_name,
+                    covering_nsec_data.next_domain_name(),
+                    wildcard_base_name.as_ref(),
+                )
                 && no_closer_matches(&query.name, soa_name, nsecs, wildcard_base_name.as_ref())
                 && find_nsec_covering_record(soa_name, &query.name, nsecs).is_some() =>
         {
@@ -1919,6 +1925,33 @@ fn verify_nsec(
             "no NSEC record matches or covers the wildcard name",
         ),
     }
+}
+
+/// The NSEC covering a non-existent name shows that every ancestor the name shares with the
+/// record's owner or next name exists. A wildcard expansion from `wildcard_base_name` is only
+/// legitimate if none of those is closer to the query name than the parent of the wildcard
+/// (RFC 4035 section 5.3.4, RFC 4592 section 3.3.1).
+fn closer_encloser_exists(
+    query_name: &Name,
+    nsec_owner: &Name,
+    nsec_next: &Name,
+    wildcard_base_name: Option<&Name>,
+) -> bool {
+    let Some(wildcard_base_name) = wildcard_base_name else {
+        return false;
+    };
+
+    let encloser_labels = wildcard_base_name.base_name().iter().count();
+    [nsec_owner, nsec_next].into_iter().any(|seed_name| {
+        let mut candidate_name = seed_name.clone();
+        while candidate_name.iter().count() > encloser_labels {
+            if candidate_name.zone_of(query_name) {
+                return true;
+            }
+            candidate_name = candidate_name.base_name();
+        }
+        false
+    })
 }
 
 // Prove that no closer name exists between the query name and wildcard_base_name
